@@ -1,28 +1,37 @@
 ------------------------------------ MODULE Windows ------------------------------------
 (* C12 - windows hold exactly the events of their time span; aggregates follow.           *)
-(* Three machines, selected (with their parameters) by the first action:                  *)
+(* Four machines, selected (with their parameters) by the first action:                   *)
 (*  tumbling : streaming::window::WindowManager (Tumbling)   - Process(e)                 *)
-(*  sliding  : streaming::window::TimeWindow::record (Sliding, duration d, cap)           *)
+(*  sliding  : streaming::window::TimeWindow (Sliding, duration d, cap): record, and the   *)
+(*             fixed-span entry point add_event and clear on the same window               *)
+(*  batch    : streaming::operators::WindowedStream (tumbling, per-window cap) built from  *)
+(*             everything offered so far; windows and their aggregates read back           *)
 (*  alpha    : rete::stream_alpha_node::StreamAlphaNode (sliding / tumbling window of      *)
 (*             duration d) under an injected clock `now` with Tick                         *)
 (* Events are [id, ts, v]; v is "i1" (1), "i3" (3), "f" (2.5), "s" (a string), "m" (missing)*)
 EXTENDS Naturals, Sequences, FiniteSets, TLC, Json
 
-CONSTANTS TS, Vs, Durs, Caps, MaxEv, MaxOps
+CONSTANTS TS, Vs, Durs, Caps, MaxEv, MaxOps, Machines
+AllMachines == {"tumbling", "sliding", "alpha", "batch"}
+SlideOnly == {"sliding"}
+BatchOnly == {"batch"}
+SlideStart == 7                   \* start_time the sliding TimeWindow is created with
 
 VARIABLES m, w, cap, kind,        \* machine, duration, cap (max events / max windows), alpha kind
           wins,                   \* tumbling: sequence of [start, mem]
           buf,                    \* sliding / alpha: arrival-ordered retained events
+          span,                   \* sliding: <<start_time, end_time>> of the TimeWindow (moved by record, consulted by add_event)
           now, n, last
-vars == <<m, w, cap, kind, wins, buf, now, n, last>>
+vars == <<m, w, cap, kind, wins, buf, span, now, n, last>>
 
 Num2(v) == CASE v = "i1" -> 2 [] v = "i3" -> 6 [] v = "f" -> 5 [] OTHER -> 0      \* twice the numeric value
 IsNum(v) == v \in {"i1", "i3", "f"}
 
 Init == /\ m = "none" /\ w = 1 /\ cap = 1 /\ kind = "none" /\ wins = <<>> /\ buf = <<>> /\ now = 10 /\ n = 0
-        /\ last = [op |-> "init"]
+        /\ span = <<0, 0>> /\ last = [op |-> "init"]
 
-Choose(x, d, c, k) == /\ m = "none" /\ m' = x /\ w' = d /\ cap' = c /\ kind' = k
+Choose(x, d, c, k) == /\ m = "none" /\ x \in Machines /\ m' = x /\ w' = d /\ cap' = c /\ kind' = k
+                      /\ span' = IF x = "sliding" THEN <<SlideStart, SlideStart + d>> ELSE span
                       /\ UNCHANGED <<wins, buf, now, n>>
                       /\ last' = [op |-> "choose", m |-> x, d |-> d, cap |-> c, kind |-> k, acc |-> TRUE]
 
@@ -48,20 +57,40 @@ TProcess(ts, v) ==
            w2 == SelectSeq(w1, LAMBDA x : ts < x.start + w)           \* cleanup_expired_windows(event time)
            w3 == DropFront(w2, cap)                                    \* max_windows
        IN wins' = SortWins(w3)
-    /\ n' = n + 1 /\ UNCHANGED <<m, w, cap, kind, buf, now>>
+    /\ n' = n + 1 /\ UNCHANGED <<m, w, cap, kind, buf, span, now>>
     /\ last' = [op |-> "event", ts |-> ts, v |-> v, acc |-> TRUE]
 
-(* ---- sliding: TimeWindow::record ---- *)
+(* ---- sliding: TimeWindow::record, and add_event / clear on the same window ---- *)
 SRecord(ts, v) ==
     /\ m = "sliding" /\ n < MaxEv
     /\ LET cutoff == IF ts > w THEN ts - w ELSE 0
            b1 == SelectSeq(Append(buf, Ev(ts, v)), LAMBDA x : x.ts >= cutoff)    \* nothing older than the duration
-       IN buf' = DropFront(b1, cap)                                                \* cap: oldest-arrived first
+       IN buf' = DropFront(b1, cap) /\ span' = <<cutoff, ts + 1>>                 \* cap: oldest-arrived first
     /\ n' = n + 1 /\ UNCHANGED <<m, w, cap, kind, wins, now>>
     /\ last' = [op |-> "event", ts |-> ts, v |-> v, acc |-> TRUE]
+(* add_event accepts only timestamps inside the current [start, end) span and does not move it *)
+SAdd(ts, v) ==
+    /\ m = "sliding" /\ n < MaxEv
+    /\ LET ok == span[1] <= ts /\ ts < span[2] IN
+       /\ buf' = IF ok THEN DropFront(Append(buf, Ev(ts, v)), cap) ELSE buf
+       /\ last' = [op |-> "add", ts |-> ts, v |-> v, acc |-> ok]
+    /\ n' = n + 1 /\ UNCHANGED <<m, w, cap, kind, wins, span, now>>
+SClear == /\ m = "sliding" /\ buf # <<>> /\ buf' = <<>> /\ UNCHANGED <<m, w, cap, kind, wins, span, now, n>>
+          /\ last' = [op |-> "clear", acc |-> TRUE]
+
+(* ---- batch: WindowedStream::new(all events offered, tumbling(w) with max_events = cap) ---- *)
+BWinOf(b, s) == [start |-> s, mem |-> DropFront(SelectSeq(b, LAMBDA x : Start(x.ts) = s), cap)]
+RECURSIVE BSeq(_, _)
+BSeq(b, S) == IF S = {} THEN <<>> ELSE LET s == CHOOSE x \in S : \A y \in S : x <= y IN <<BWinOf(b, s)>> \o BSeq(b, S \ {s})
+BOffer(ts, v) == /\ m = "batch" /\ n < MaxEv /\ n' = n + 1
+                 /\ LET b2 == Append(buf, Ev(ts, v)) IN
+                    /\ buf' = b2                                                     \* everything offered, in arrival order
+                    /\ wins' = BSeq(b2, {Start(b2[i].ts) : i \in DOMAIN b2})         \* what WindowedStream::new(b2) must hold
+                 /\ UNCHANGED <<m, w, cap, kind, span, now>>
+                 /\ last' = [op |-> "event", ts |-> ts, v |-> v, acc |-> TRUE]
 
 (* ---- alpha: StreamAlphaNode::process_event under the injected clock ---- *)
-ATick(k) == /\ m = "alpha" /\ now + k <= 20 /\ now' = now + k /\ UNCHANGED <<m, w, cap, kind, wins, buf, n>>
+ATick(k) == /\ m = "alpha" /\ now + k <= 20 /\ now' = now + k /\ UNCHANGED <<m, w, cap, kind, wins, buf, span, n>>
             /\ last' = [op |-> "tick", k |-> k, acc |-> TRUE]
 AWinStart == (now \div w) * w
 AAccept(ts) == IF kind = "sliding" THEN (IF now > w THEN now - w ELSE 0) <= ts /\ ts <= now
@@ -73,12 +102,14 @@ AProcess(ts, v) ==
                 lo == IF kind = "sliding" THEN (IF now > w THEN now - w ELSE 0) ELSE AWinStart
             IN buf' = SelectSeq(b1, LAMBDA x : x.ts >= lo)
        ELSE UNCHANGED buf
-    /\ n' = n + 1 /\ UNCHANGED <<m, w, cap, kind, wins, now>>
+    /\ n' = n + 1 /\ UNCHANGED <<m, w, cap, kind, wins, span, now>>
     /\ last' = [op |-> "event", ts |-> ts, v |-> v, acc |-> AAccept(ts)]
 
 Next == \/ \E d \in Durs, c \in Caps : Choose("tumbling", d, c, "none") \/ Choose("sliding", d, c, "none")
         \/ \E d \in Durs, c \in Caps, k \in {"sliding", "tumbling"} : Choose("alpha", d, c, k)
-        \/ \E ts \in TS, v \in Vs : TProcess(ts, v) \/ SRecord(ts, v) \/ AProcess(ts, v)
+        \/ \E d \in Durs, c \in Caps : Choose("batch", d, c, "none")
+        \/ \E ts \in TS, v \in Vs : TProcess(ts, v) \/ SRecord(ts, v) \/ AProcess(ts, v) \/ SAdd(ts, v) \/ BOffer(ts, v)
+        \/ SClear
         \/ \E k \in {1, 2} : ATick(k)
 Spec == Init /\ [][Next]_vars
 
@@ -94,6 +125,11 @@ ProcessedIsPlacedOnce ==
         Cardinality({i \in DOMAIN wins : \E j \in DOMAIN wins[i].mem : wins[i].mem[j].id = n}) = 1
 SlidingNoOld ==
     (m = "sliding" /\ last.op = "event") => \A i \in DOMAIN buf : buf[i].ts + w >= last.ts
+(* batch: every retained event sits in the aligned window of its timestamp; per window the retained events are the last `cap` offered *)
+BatchPlacement ==
+    m = "batch" => /\ \A i \in DOMAIN wins : \A j \in DOMAIN wins[i].mem : Start(wins[i].mem[j].ts) = wins[i].start
+                   /\ \A i \in DOMAIN buf : \/ \E k \in DOMAIN wins : \E j \in DOMAIN wins[k].mem : wins[k].mem[j].id = buf[i].id
+                                             \/ Cardinality({q \in DOMAIN buf : q > i /\ Start(buf[q].ts) = Start(buf[i].ts)}) >= cap
 SlidingKeepsYoung ==     \* nothing young is dropped except oldest-first by the cap
     [][(m = "sliding" /\ last'.op = "event") =>
           LET cutoff == IF last'.ts > w THEN last'.ts - w ELSE 0
@@ -105,6 +141,7 @@ AlphaAfterAccept ==
         /\ \A i \in DOMAIN buf : IF kind = "sliding" THEN buf[i].ts + w >= now /\ buf[i].ts <= now
                                  ELSE AWinStart <= buf[i].ts /\ buf[i].ts < AWinStart + w
 Reach_LateSliding == ~(m = "sliding" /\ Len(buf) >= 2 /\ \E i \in DOMAIN buf : i < Len(buf) /\ buf[i].ts > buf[Len(buf)].ts + 1)
+Reach_AddThenEvicted == ~(m = "sliding" /\ last.op = "event" /\ \E i \in 1..n : i < n /\ ~\E j \in DOMAIN buf : buf[j].id = i)
 Reach_AlphaRollover == ~(m = "alpha" /\ kind = "tumbling" /\ last.op = "event" /\ last.acc /\ n >= 2 /\ Len(buf) = 1)
 
 ----------------------------------------------------------------------------------------
@@ -116,11 +153,12 @@ MinMax2(s, mx) == IF NumVals(s) = {} THEN 0      \* 0 = none (values are >= 2)
                   ELSE CHOOSE x \in NumVals(s) : \A y \in NumVals(s) : IF mx THEN x >= y ELSE x <= y
 Agg(s) == [ids |-> [i \in DOMAIN s |-> s[i].id], count |-> Len(s), sum2 |-> Sum2(s),
            nnum |-> Cardinality({j \in DOMAIN s : IsNum(s[j].v)}), min2 |-> MinMax2(s, FALSE), max2 |-> MinMax2(s, TRUE)]
+ObsWins(ws) == [i \in DOMAIN ws |-> [start |-> ws[i].start, end |-> ws[i].start + w, agg |-> Agg(ws[i].mem)]]
 Obs == [acc |-> last.acc,
-        wins |-> [i \in DOMAIN wins |-> [start |-> wins[i].start, end |-> wins[i].start + w, agg |-> Agg(wins[i].mem)]],
-        buf |-> Agg(buf)]
+        wins |-> ObsWins(wins),
+        buf |-> IF m = "batch" THEN Agg(<<>>) ELSE Agg(buf)]
 Bound == n <= MaxOps
-View == <<m, w, cap, kind, wins, buf, now, n>>
-StateRec == [m |-> m, w |-> w, cap |-> cap, kind |-> kind, wins |-> wins, buf |-> buf, now |-> now, n |-> n]
+View == <<m, w, cap, kind, wins, buf, span, now, n>>
+StateRec == [m |-> m, w |-> w, cap |-> cap, kind |-> kind, wins |-> wins, buf |-> buf, span |-> span, now |-> now, n |-> n]
 Edge == PrintT(ToJson([s |-> StateRec, l |-> last', o |-> Obs', t |-> StateRec']))
 ========================================================================================
